@@ -290,6 +290,8 @@ def main(ctx):
             raise vlib.CheckError("trace chunk %d not consumed completely (line %s): malformed trace" % (ci, info.get("rejected_at")))
         ch = chs[ci]
         for line, clause in info["broken"]:
+            if clause == "MidNotDetermined":
+                raise vlib.CheckError("trace line %d of chunk %d: first transaction of a block without a determined outcome (harness error)" % (line, ci))
             bad = ch[line - 1]
             start = max(i for i in range(line) if ch[i].get("ev") == "Reset")
             exf = ctx.path("replay_%s_%d.ndjson" % (clause, ci))
@@ -311,7 +313,7 @@ def main(ctx):
                         a["bal"][0] = (a["bal"][0] + 1) % 10000
                         return rows_
         return None
-    if nviol == 0:
+    if not ctx.violations:
         from props.c13 import selftest_reject
         selftest_reject(ctx, "Trace_ContractTx.tla", "Trace_ContractTx.cfg", paths[0], mutate, n_lines=400)
 
